@@ -94,6 +94,7 @@ type recorder struct {
 	shutdown   bool
 	stopLogged bool
 	dialUDP    bool
+	overflow   bool
 	curCall    string         // handler API call in progress on the loop thread (for oracle signatures)
 	ptr2fd     map[uint64]int // poll_opt: epoll data (attachment pointer) -> descriptor it was registered for
 	suppress   bool           // loop-thread system calls made by the harness's own extra actions are not part of the trace
@@ -109,7 +110,18 @@ func newRecorder() *recorder {
 	return r
 }
 
-func (r *recorder) add(tag string, l tr.Line) { r.log = append(r.log, entry{tag, l}) }
+// add appends to the log; a loop that spins produces events without end: the log is capped and the
+// case is then reported as wedged (the driver's idle detection normally fires long before)
+func (r *recorder) add(tag string, l tr.Line) {
+	if len(r.log) >= 400000 {
+		if !r.overflow {
+			r.overflow = true
+			r.log = append(r.log, entry{"fail", tr.L("loop-stuck", "log-overflow", "#", "more than 400000 events in one case: the loop is spinning")})
+		}
+		return
+	}
+	r.log = append(r.log, entry{tag, l})
+}
 
 // Op/Obs/Fail from harness code (takes the lock)
 func (r *recorder) Op(l tr.Line)  { r.mu.Lock(); r.add("op", l); r.mu.Unlock() }
